@@ -82,11 +82,12 @@ async fn handle_http_proxy_connection(
         session
             .write_data_frame(proxy_stream.id(), Bytes::from(request_bytes))
             .await?;
-        if !request.body.is_empty() {
-            session
-                .write_data_frame(proxy_stream.id(), Bytes::from(request.body.clone()))
-                .await?;
-        }
+    }
+    // bytes that arrived together with the header belong to the tunnel / request body
+    if !request.body.is_empty() {
+        session
+            .write_data_frame(proxy_stream.id(), Bytes::from(request.body.clone()))
+            .await?;
     }
 
     let (mut client_read, mut client_write) = tokio::io::split(client_conn);
